@@ -45,6 +45,9 @@ class M:
             PD.new_space("Z").new_cells("zf", formula="lambda: n + 2")
             NP = P.new_space("NP", formula="lambda r: None")         # nested parametric child
             NP.new_cells("both", formula="lambda: n * 100 + r * 10 + g")
+            NQ = P.new_space("NQ", formula="lambda n: None")         # nested parametric child REUSING the parameter name of its parent
+            NQ.new_cells("inner", formula="lambda: n * 2 + g")
+            NQ.new_cells("twice", formula="lambda: inner() * 2")
             PS = self.PS = m.new_space("PS", bases=P, formula=SIGS[sig][0])      # derives P's cells and refs; instances of PS inherit them
             PS.new_cells("own", formula="lambda t: h(t) * 2")
 
@@ -145,6 +148,11 @@ def itemspace(k: int, g: int, k2: int, v: int, w: int, sig: int, a: int, b: int,
         nested = call(lambda: i1.spaces["NP"][b].cells["both"]())
         if not check(nested[0] == "ok" and nested[1] == a * 100 + b * 10 + g, "nested ItemSpace sees both parameters", lambda: nested):
             return False
+        for bb in (b, 1 - b):
+            shadow = call(lambda: (i1.spaces["NQ"][bb].n, i1.spaces["NQ"][bb].cells["inner"](), i1.spaces["NQ"][bb].cells["twice"]()))
+            if not check(shadow[0] == "ok" and shadow[1][0] == bb and shadow[1][1] == bb * 2 + g and shadow[1][2] == (bb * 2 + g) * 2,
+                         "nested ItemSpace reusing its parent's parameter name binds its OWN argument", lambda: (shadow, bb)):
+                return False
     with notrace():
         keys = set(IS.itemspaces)
         want = {(0, 1), (1, 1)} if "q" in SIGS[sig][1] else {0, 1}
@@ -240,6 +248,81 @@ def itemspace(k: int, g: int, k2: int, v: int, w: int, sig: int, a: int, b: int,
     return True
 
 
+REDERIVE = ["RS.remove_bases(RB1)", "del RB1.foo", "RB0.new_cells('foo') in a base added in front", "RS.add_bases(RB3) defining bar only", "del RB1.r (reference)", "RB1.foo.formula changed"]
+
+
+@harness
+def rederive(n0: int, a: int, how: int, own: bool, pre: bool, refs: bool) -> bool:
+    """A parametric space whose members are all DERIVED (two bases defining the same cells / reference): when the nearest
+    definer changes, existing instances must not keep serving the members of the former one."""
+    a, how, own, pre, refs = pick(a, 0, 1), pick(how, 0, len(REDERIVE) - 1), pickb(own), pickb(pre), pickb(refs)
+    if how == 4 and not refs:
+        return True
+    with notrace():
+        m = new_model("RD")
+        RB0 = m.new_space("RB0")
+        RB1 = m.new_space("RB1", bases=RB0)
+        RB1.new_cells("foo", formula="lambda: n + 1")
+        RB2 = m.new_space("RB2")
+        RB2.new_cells("foo", formula="lambda: n + 2")
+        if refs:
+            RB1.r = n0
+            RB2.r = n0 + 100
+        else:
+            m.r = n0                   # (a model-level reference: the same for every definer)
+        RB3 = m.new_space("RB3")
+        RB3.new_cells("bar", formula="lambda: foo() * 10")
+        RS = m.new_space("RS", bases=[RB1, RB2], formula="lambda n: None")
+        if own:
+            RS.new_cells("mine", formula="lambda: foo() + r")
+    label("%s; RS %s; %s" % (REDERIVE[how], "defines a cells of its own" if own else "has derived members only", "bases define a reference too" if refs else "bases define cells only"))
+    inst = RS[a]
+    f = inst.cells["foo"]
+    if pre:
+        v0 = call(f)
+        if not check(v0[0] == "ok" and v0[1] == a + 1 and inst.r == n0, "instance of the derived space before the edit", lambda: v0):
+            return False
+    exp_foo, exp_r, exp_bar = a + 1, n0, None
+    if how == 0:
+        RS.remove_bases(RB1)
+        exp_foo, exp_r = a + 2, (n0 + 100 if refs else n0)
+    elif how == 1:
+        del RB1.foo
+        exp_foo = a + 2
+    elif how == 2:
+        RB0.new_cells("foo", formula="lambda: n + 7")       # RB1 still defines foo first: nothing changes for RS
+    elif how == 3:
+        RS.add_bases(RB3)
+        exp_bar = (a + 1) * 10
+    elif how == 4:
+        del RB1.r
+        exp_r = n0 + 100
+    elif how == 5:
+        RB1.cells["foo"].formula = "lambda: n + 5"
+        exp_foo = a + 5
+    new = RS[a]
+    got = {"foo": call(lambda: new.cells["foo"]()), "r": call(lambda: new.r), "S.foo": call(lambda: RS.cells["foo"]())}
+    if not check(got["foo"][0] == "ok" and got["foo"][1] == exp_foo, "instance serves the cells of the current nearest definer", lambda: (got, exp_foo)):
+        return False
+    if not check(got["r"][0] == "ok" and got["r"][1] == exp_r, "instance serves the reference of the current nearest definer", lambda: (got, exp_r)):
+        return False
+    if exp_bar is not None:
+        b = call(lambda: new.cells["bar"]())
+        if not check(b[0] == "ok" and b[1] == exp_bar, "instance has the member of the added base", lambda: b):
+            return False
+    if own:
+        o = call(lambda: new.cells["mine"]())
+        if not check(o[0] == "ok" and o[1] == exp_foo + exp_r, "own cells of the space evaluates inside the instance with the current members", lambda: o):
+            return False
+    old = call(f)                      # the cells handle taken before the edit
+    if not check((old[0] == "err" and old[1] == "DeletedObjectError") or (old[0] == "ok" and old[1] == exp_foo),
+                 "old cells handle raises the deleted-object error or reflects the current definitions", lambda: old):
+        return False
+    oldi = call(lambda: inst.cells["foo"]())
+    return check((oldi[0] == "err" and oldi[1] == "DeletedObjectError") or (oldi[0] == "ok" and oldi[1] == exp_foo),
+                 "old instance handle raises the deleted-object error or reflects the current definitions", lambda: oldi)
+
+
 NS, NE = len(SIGS), len(EDITS)
 QUERIES = [
     Query("itemspace", itemspace, pre=["0 <= sig < %d" % NS, "0 <= a <= 1", "0 <= b <= 1", "0 <= s1 < 5", "0 <= s2 < 5", "0 <= ed < %d" % NE],
@@ -251,8 +334,15 @@ QUERIES = [
           natives=[dict(k=3, g=4, k2=5, v=77, w=99, sig=s, a=a, b=1, s1=s1, s2=s2, ed=e, derived=False)
                    for (s, a, s1, s2, e) in ((0, 1, 0, 1, 1), (1, 0, 3, 4, 3), (2, 0, 4, 0, 2), (3, 1, 2, 0, 1), (4, 1, 1, 2, 4), (0, 0, 0, 2, 5), (1, 1, 1, 2, 6), (3, 0, 0, 1, 7), (2, 1, 1, 1, 0), (4, 1, 0, 1, 8), (0, 1, 0, 1, 8), (0, 0, 0, 1, 9), (1, 1, 0, 1, 9), (0, 1, 0, 1, 10), (1, 0, 0, 1, 11), (3, 1, 0, 1, 11))] +
                   [dict(k=3, g=4, k2=5, v=77, w=99, sig=s, a=1, b=0, s1=0, s2=1, ed=e, derived=True) for (s, e) in ((0, 3), (1, 1), (2, 6), (3, 4), (0, 2))],
-          bounds=lambda tier: {"signatures": [s[0] for s in SIGS], "spellings": 5, "arguments": "{0,1}", "edits": EDITS, "nesting": "parametric child of a parametric space", "derived": "instances of a parametric space that inherits the cells/refs from P, edits applied to P",
+          bounds=lambda tier: {"signatures": [s[0] for s in SIGS], "spellings": 5, "arguments": "{0,1}", "edits": EDITS, "nesting": "parametric child of a parametric space (distinct parameter names, and the parent's name reused)", "derived": "instances of a parametric space that inherits the cells/refs from P, edits applied to P",
                                "values": "k, g, k2, edit operand, assigned input: unbounded symbolic ints"},
           outside=["more than two parameters", "two edits", "formulas returning 'bases' lists"]),
 ]
+QUERIES.append(
+    Query("rederive", rederive, pre=["0 <= a <= 1", "0 <= how < %d" % len(REDERIVE)],
+          partitions=lambda tier, seed: [dict(how=h_) for h_ in range(len(REDERIVE))],
+          natives=[dict(n0=7, a=1, how=h_, own=o_, pre=p_, refs=True) for h_ in range(len(REDERIVE)) for (o_, p_) in ((False, True), (True, False))] +
+                  [dict(n0=7, a=0, how=h_, own=o_, pre=True, refs=False) for h_ in (0, 1, 2, 3, 5) for o_ in (False, True)],
+          bounds=lambda tier: {"edits": REDERIVE, "space": "RS(RB1(RB0), RB2) parametric, all members derived (optionally one own cells)", "argument": "{0,1}", "reference value": "unbounded symbolic int"},
+          outside=["deeper base chains"]))
 BUDGET = {"quick": 420, "thorough": 1200}
